@@ -61,11 +61,16 @@ func c05Gen(t *rapid.T) c05Case {
 			continue
 		}
 		op := c05Op{Actor: "adv"}
-		op.Kind = rapid.SampledFrom(c05AdvKinds).Draw(t, "akind")
+		if c.World == "bootstrap" && rapid.Bool().Draw(t, "bootkind") {
+			// the only factor that exists in this world
+			op.Kind = rapid.SampledFrom([]string{"bootstrap", "bootstrap", "login-b", "cert-b", "cert-a"}).Draw(t, "akind")
+		} else {
+			op.Kind = rapid.SampledFrom(c05AdvKinds).Draw(t, "akind")
+		}
 		op.Cookie = rapid.IntRange(-1, 7).Draw(t, "cookie")
 		op.Vip = rapid.IntRange(-1, 5).Draw(t, "vip")
 		op.Cert = rapid.IntRange(0, 3).Draw(t, "cert") == 0
-		op.Value = rapid.SampledFrom([]string{"fresh", "fresh", "fresh", "replay", "stale", "expired"}).Draw(t, "value")
+		op.Value = rapid.SampledFrom([]string{"fresh", "fresh", "fresh", "replay", "stale", "expired", "writefault"}).Draw(t, "value")
 		op.Extra = rapid.IntRange(0, 5).Draw(t, "extra")
 		c.Ops = append(c.Ops, op)
 	}
@@ -82,7 +87,11 @@ func c05Gen(t *rapid.T) c05Case {
 		return prev
 	}
 	cert := func(label string) bool { return rapid.IntRange(0, 4).Draw(t, label) == 0 }
-	switch rapid.IntRange(0, 6).Draw(t, "motif") {
+	motif := rapid.IntRange(0, 6).Draw(t, "motif")
+	if c.World == "bootstrap" && motif < 4 {
+		motif = 4 // the other motifs need tokens that do not exist in this world
+	}
+	switch motif {
 	case 0:
 		v := rapid.IntRange(0, 3).Draw(t, "mvip")
 		c.Ops = append(c.Ops,
@@ -98,7 +107,7 @@ func c05Gen(t *rapid.T) c05Case {
 	case 2:
 		c.Ops = append(c.Ops,
 			c05Op{Actor: "adv", Kind: "webauthn-begin", Cookie: ck("m1"), Value: "fresh"},
-			c05Op{Actor: "adv", Kind: "webauthn-finish", Cookie: ck("m2"), Cert: cert("mc"), Value: "fresh", Extra: 1000003},
+			c05Op{Actor: "adv", Kind: "webauthn-finish", Cookie: ck("m2"), Cert: cert("mc"), Value: "fresh", Extra: 1000003, Vip: rapid.IntRange(0, 1).Draw(t, "mfido")},
 			c05Op{Actor: "adv", Kind: "webauthn-finish", Cookie: ck("m3"), Value: "replay", Extra: 1000003})
 	case 3:
 		c.Ops = append(c.Ops,
@@ -107,8 +116,15 @@ func c05Gen(t *rapid.T) c05Case {
 			c05Op{Actor: "adv", Kind: "cert-a", Cookie: ck("m3"), Value: "fresh"})
 	case 4:
 		k := rapid.SampledFrom([]string{"totp", "vipotp", "bootstrap"}).Draw(t, "mfactor")
+		if c.World == "bootstrap" {
+			k = "bootstrap"
+		}
+		firstValue := "fresh"
+		if k == "bootstrap" && rapid.Bool().Draw(t, "mfault") {
+			firstValue = "writefault" // the profile store refuses the write that would consume the value
+		}
 		c.Ops = append(c.Ops,
-			c05Op{Actor: "adv", Kind: k, Cookie: ck("m1"), Cert: cert("mc"), Value: "fresh"},
+			c05Op{Actor: "adv", Kind: k, Cookie: ck("m1"), Cert: cert("mc"), Value: firstValue},
 			c05Op{Actor: "adv", Kind: k, Cookie: ck("m2"), Value: "replay"},
 			c05Op{Actor: "adv", Kind: "cert-a", Cookie: ck("m3"), Value: "fresh"})
 	}
@@ -145,8 +161,9 @@ type c05Run struct {
 	lastAssert       *u2f.SignResponse // the adversary's last accepted assertion (for replay)
 	lastAssertCookie string
 	cliTokens        []string
-	waChal           []string // webauthn challenges the adversary obtained
-	lastWA           []byte   // last accepted webauthn assertion body
+	waChal           []string  // webauthn challenges the adversary obtained
+	lastWA           []byte    // last accepted webauthn assertion body
+	fidoB            *vSoftU2F // B's FIDO2 (webauthn-registered, COSE key) authenticator
 	bootUsed         map[string]bool
 	nontrivial       bool
 	shape            []string
@@ -179,6 +196,10 @@ func c05NewRun(world string) *c05Run {
 		r.waTokB = vNewSoftU2F("c05-b-wa")
 		p, _, _, _ := w.state.LoadUserProfile(vUserBob)
 		p.WebauthnData = map[int64]*webauthAuthData{300: {Enabled: true, Name: "wa", Credential: webauthn.Credential{ID: r.waTokB.keyHandle, PublicKey: r.waTokB.pubBytes(), AttestationType: "none"}}}
+		// ... and a FIDO2 credential (COSE key, non-U2F attestation): the
+		// standard webauthn verification branch
+		r.fidoB = vNewSoftU2F("c05-b-fido2")
+		p.WebauthnData[301] = &webauthAuthData{Enabled: true, Name: "fido2", Credential: webauthn.Credential{ID: r.fidoB.keyHandle, PublicKey: r.fidoB.cosePublicKey(), AttestationType: "packed"}}
 		w.state.SaveUserProfile(vUserBob, p)
 	} else {
 		w.vSetBootstrapOTP(vUserAlice, "boot-otp-of-alice", time.Hour)
@@ -382,7 +403,7 @@ func (r *c05Run) step(op c05Op) {
 			}
 			if json.Unmarshal(resp.Body, &opts) == nil && opts.PublicKey.Challenge != "" {
 				// a browser decodes the challenge and re-encodes it unpadded in clientDataJSON
-				r.waChal = append(r.waChal, strings.TrimRight(opts.PublicKey.Challenge, "="))
+				r.waChal = append(r.waChal, strings.NewReplacer("+", "-", "/", "_", "=", "").Replace(opts.PublicKey.Challenge))
 			}
 		}
 		r.learn(op.Kind, resp)
@@ -393,7 +414,14 @@ func (r *c05Run) step(op c05Op) {
 		replay := op.Value == "replay" && r.lastWA != nil
 		body := r.lastWA
 		if !replay {
-			body = r.tokB.webauthnAssertion(r.waChal[c05Pick(op.Extra, len(r.waChal))], u2fAppID, u2fAppID)
+			chal := r.waChal[c05Pick(op.Extra, len(r.waChal))]
+			if op.Vip >= 0 && op.Vip%2 == 1 && r.fidoB != nil {
+				// FIDO2 credential: rpIdHash is the hash of the RP ID
+				body = r.fidoB.webauthnAssertion(chal, u2fAppID, vHostIdentity)
+				r.res.label("wa-finish-fido2")
+			} else {
+				body = r.tokB.webauthnAssertion(chal, u2fAppID, u2fAppID)
+			}
 		}
 		req := vNewRequest("POST", webAuthnAuthFinishPath, bytes.NewReader(body))
 		req.Header.Set("Content-Type", "application/json")
@@ -418,11 +446,29 @@ func (r *c05Run) step(op c05Op) {
 				r.bootUsed["expired"] = true
 			}
 		}
+		if op.Value == "writefault" && st.db != nil {
+			// the primary accepts reads but refuses the next profile write
+			// (read-only fail-over, full disk): an sqlite trigger aborts it
+			if _, err := st.db.Exec("CREATE TRIGGER IF NOT EXISTS verif_write_fault BEFORE INSERT ON user_profile BEGIN SELECT RAISE(ABORT, 'verif: write refused'); END"); err == nil {
+				r.res.label("bootstrap-under-write-fault")
+			}
+		}
 		req := vFormRequest("POST", bootstrapOtpAuthPath, url.Values{"OTP": {otp}})
 		r.advRequest(op, req)
 		resp := vServe(st.BootstrapOtpAuthHandler, req)
+		if op.Value == "writefault" && st.db != nil {
+			st.db.Exec("DROP TRIGGER IF EXISTS verif_write_fault")
+		}
 		r.learn(op.Kind, resp)
-		if resp.Code == 200 {
+		// the value counts as accepted when the session was raised, whatever the
+		// status line says (browsers apply Set-Cookie on every status)
+		raised := resp.Code == 200
+		if ck := resp.Cookie(authCookieName); ck != nil {
+			if info, err := st.getAuthInfoFromAuthJWT(ck.Value); err == nil && info.AuthType&AuthTypeBootstrapOTP != 0 {
+				raised = true
+			}
+		}
+		if raised {
 			r.nontrivial = true
 			if r.bootUsed[otp] {
 				r.res.violate("bootstrap-otp-replay", "bootstrap OTP of bob accepted a second time (history %v)", r.shape)
@@ -587,7 +633,7 @@ func TestVerifC05Sessions(t *testing.T) {
 // 30 s step is presented again just after the step boundary.
 func TestVerifC05TOTPBoundary(t *testing.T) {
 	name := t.Name()
-	vSetRule(name, "one real-time history per run: accept a TOTP code, wait across the next 30 s step boundary (<= 31 s), present the same code again from another session of the user; it must be refused", false)
+	vSetRule(name, "one real-time history per run: user B has a code of the current step accepted, user A (device clock ahead) a code of the NEXT step; wait across the 30 s step boundary (<= 31 s); each presents the same code again from another session; both must be refused", false)
 	if rf := vReplay(); rf != nil && rf.Test != name {
 		t.Skip("replay is for another test")
 	}
@@ -595,27 +641,41 @@ func TestVerifC05TOTPBoundary(t *testing.T) {
 	defer r.close()
 	res := &vResult{Desc: "totp-step-boundary", NonTrivial: true}
 	st := r.w.state
-	present := func(code string) int {
-		r.w.vResetTOTPThrottleKeepReplay(vUserBob)
+	presentAs := func(user, code string) int {
+		r.w.vResetTOTPThrottleKeepReplay(user)
 		req := vFormRequest("POST", totpAuthPath, url.Values{"OTP": {code}})
-		r.w.applyCred(req, vCred{Kind: "cookie", Bits: AuthTypePassword}, vUserBob)
+		r.w.applyCred(req, vCred{Kind: "cookie", Bits: AuthTypePassword}, user)
 		return vServe(st.TOTPAuthHandler, req).Code
+	}
+	present := func(code string) int { return presentAs(vUserBob, code) }
+	// make sure both presentations below happen in one step, well before its end
+	if left := 30 - time.Now().Unix()%30; left < 4 {
+		time.Sleep(time.Duration(left)*time.Second + 200*time.Millisecond)
 	}
 	code := vTOTPCode(vTOTPSecretBob, time.Now())
 	first := present(code)
+	// the other user's device clock runs ahead: her code belongs to the NEXT step
+	// (within the accepted skew); once accepted it must not work again when the
+	// server's clock enters that step
+	codeNext := vTOTPCode(vTOTPSecretAlice, time.Now().Add(30*time.Second))
+	firstNext := presentAs(vUserAlice, codeNext)
+	res.label(fmt.Sprintf("current-step-code:%d", first), fmt.Sprintf("next-step-code:%d", firstNext))
 	if first != 200 {
 		res.label("first-refused")
-	} else {
-		if present(code) == 200 {
-			res.violate("totp-replay", "a TOTP code was accepted twice within its own step")
-		}
+	} else if present(code) == 200 {
+		res.violate("totp-replay", "a TOTP code was accepted twice within its own step")
+	}
+	if first == 200 || firstNext == 200 {
 		next := time.Unix((time.Now().Unix()/30+1)*30, 0)
 		time.Sleep(time.Until(next) + 1200*time.Millisecond)
-		if present(code) == 200 {
+		if first == 200 && present(code) == 200 {
 			res.violate("totp-replay-across-step", "a TOTP code accepted in one 30 s step was accepted again just after the step boundary")
 		}
+		if firstNext == 200 && presentAs(vUserAlice, codeNext) == 200 {
+			res.violate("totp-replay-next-step-code", "a TOTP code of the following step (device clock ahead) was accepted, and accepted again once the server clock entered that step")
+		}
 	}
-	caseDesc := map[string]string{"history": "accept code; wait across step boundary; present again"}
+	caseDesc := map[string]string{"history": "accept current-step code (B) and next-step code (A); wait across step boundary; present each again"}
 	if unknown := vRecord(name, caseDesc, res); len(unknown) > 0 {
 		vCommitFail(name)
 		t.Fatalf("violation %s: %s", unknown[0].Key, unknown[0].Msg)
